@@ -208,7 +208,7 @@ func (w *World) EnumIssues(fm *FileModel) []Issue {
 	}
 	visit = func(s *Spec, S *Struct, path string) {
 		for _, p := range s.Props {
-			F := S.FieldByTag(AtomText(p.Name), w.tagKey())
+			F := S.FieldByTag(p.Text(), w.tagKey())
 			if F == nil {
 				continue
 			}
